@@ -30,6 +30,7 @@ mod c14;
 mod c15;
 mod c17;
 mod c18;
+mod fh;
 mod sysop;
 
 use std::env;
@@ -89,6 +90,7 @@ fn run_op(op: &str, seed: u64, n: u64, out: &mut out::Out) {
         "c15" => c15::run(seed, n, out),
         "c17" => c17::run(seed, n, out),
         "c18" => c18::run(seed, n, out),
+        "fh" => fh::run(seed, n, out),
         "sys" => sysop::run(seed, n, out),
         other => panic!("unknown VERIF_OP {}", other),
     }
